@@ -165,7 +165,10 @@ def check_graph(g, where, has_dup):  # noqa: C901
                     V("nusers-vs-list", f"get_nusers {nus[u]} != len(list of users) {len(users)} for {type(u).__name__}")
         counters["list_pairs"] += len(nodes)
     except Exception as e:  # noqa: BLE001
-        V("exception", progcheck.exc_msg("list users/preds", e), **{k: v for k, v in progcheck.exc_sig("list-users", e).items() if k != "kind"})
+        if type(e).__name__ == "UnsupportedArrayError":
+            counters["users-list-refused(unsupported node kind)"] += 1      # (a refusal with a diagnostic, not a wrong answer)
+        else:
+            V("exception", progcheck.exc_msg("list users/preds", e), **{k: v for k, v in progcheck.exc_sig("list-users", e).items() if k != "kind"})
     # ---- B. set users <-> set predecessors
     try:
         users = ptt.get_users(g)
@@ -210,7 +213,10 @@ def check_graph(g, where, has_dup):  # noqa: C901
                       probe=type(probe).__name__, missing=sorted(set(miss))[:4])
         counters["set_pairs"] += len(nodes)
     except Exception as e:  # noqa: BLE001
-        V("exception", progcheck.exc_msg("set users/preds", e), **{k: v for k, v in progcheck.exc_sig("set-users", e).items() if k != "kind"})
+        if type(e).__name__ == "UnsupportedArrayError":
+            counters["users-set-refused(unsupported node kind)"] += 1
+        else:
+            V("exception", progcheck.exc_msg("set users/preds", e), **{k: v for k, v in progcheck.exc_sig("set-users", e).items() if k != "kind"})
     # ---- D. topological order
     try:
         tsm = ptt.TopoSortMapper()
